@@ -48,6 +48,19 @@ def work_paths(chunk, st):
             has, _complete = c02._json_has_report(rj.stdout, F.advertised(rj, arch))
             if has != report.TextReport(ref.stdout).has_alg_report():
                 st.violation('%s:json-path:report-shown-differs-from-text-run' % arch, d)
+        # ... and the policy-making path (-M): whatever the peer did, a documented status; a policy file only after a usable handshake
+        if arch not in ('E', 'E1', 'E2', 'F'):
+            import os
+            path = H.tmp_path('c09-made-%d.txt' % os.getpid())
+            if os.path.exists(path):
+                os.unlink(path)
+            rm = explore.run_plan(F.scenario(arch, short, extra_opts=['-M', path]), plan)
+            st.execution(rm.world, outcome=(arch, 'make', rm.status, bool(rm.hang), fk), root=(arch, short, plan, 'make'), nontrivial=(arch, plan, 'make'), detail='light')
+            dm = {'arch': arch, 'short': short, 'plan': plan, 'status': rm.status, 'text_status': ref.status, 'stdout_tail': rm.stdout[-300:]}
+            if rm.hang or rm.exc or rm.status not in (0, 1, 2, 3):
+                st.violation('%s:make-policy-path:crash-hang-or-status-%s:%s' % (arch, rm.status, F._trace_site(rm.stdout + rm.stderr)), dict(dm, hang=rm.hang, exc=rm.exc))
+            elif (ref.status in (0, 2, 3)) != os.path.exists(path):
+                st.violation('%s:make-policy-path:policy-file-%s' % (arch, 'missing-after-a-complete-audit' if ref.status in (0, 2, 3) else 'written-after-a-broken-handshake'), dm)
 
 
 def account(st, arch, short, plan, res):
